@@ -169,6 +169,11 @@ func hookGo(site string, idx int) func() {
 		}
 		return func() {}
 	}
+	if strings.HasPrefix(site, "auto.go:") && s.lookup() != nil {
+		// registration inserted by cmd/autoyield at the top of a function some `go` statement
+		// calls: this call is a plain one on a goroutine that is a task already
+		return func() {}
+	}
 	return s.register(site, idx, false)
 }
 
